@@ -362,25 +362,48 @@ WorkBounded(T, b) == LET r == Dec(T, b) IN IsErr(r) \/ r.w <= WorkBoundK * Len(b
 (* Length / count / size fields of an encoding (esz: least size of one     *)
 (* counted element; 0 = zero-size elements), and hostile mutants           *)
 (***************************************************************************)
+(* FixedSize(T): every value of T has the same number of bytes on the wire (= MinSize(T)): a counted  *)
+(* sequence of such elements is  LE(count) \o element^count  - the SCALE LAW used by the harness to     *)
+(* instantiate a vector at sizes TLC cannot enumerate (Scale below)                                     *)
+RECURSIVE FixedSize(_)
+FixedSize(T) == CASE T.k \in NumKinds \cup {"b", "v"} -> TRUE
+                  [] T.k \in {"tuple", "struct"} -> \A i \in 1..Len(T.ms) : FixedSize(T.ms[i])
+                  [] OTHER -> FALSE
 RECURSIVE Fields(_, _, _), FieldsSeq(_, _, _)
 FieldsSeq(ts, vs, off) ==
   IF ts = <<>> THEN {}
   ELSE Fields(Head(ts), Head(vs), off) \cup FieldsSeq(Tail(ts), Tail(vs), off + Len(EncOrd(Head(ts), Head(vs))))
 Fields(T, v, off) ==     \* off: 0-based offset of the encoding of v
-  CASE T.k = "s" -> {[pos |-> off, kind |-> "strlen", n |-> Len(v), esz |-> 1]}
-    [] T.k = "r" -> {[pos |-> off, kind |-> "rawlen", n |-> Len(v), esz |-> 1]}
-    [] T.k = "m" -> {[pos |-> off, kind |-> "siglen", n |-> Len(Sig(v[1])), esz |-> 1]}
+  CASE T.k = "s" -> {[pos |-> off, kind |-> "strlen", n |-> Len(v), esz |-> 1, fix |-> TRUE]}
+    [] T.k = "r" -> {[pos |-> off, kind |-> "rawlen", n |-> Len(v), esz |-> 1, fix |-> TRUE]}
+    [] T.k = "m" -> {[pos |-> off, kind |-> "siglen", n |-> Len(Sig(v[1])), esz |-> 1, fix |-> FALSE]}
                     \cup Fields(v[1], v[2], off + 4 + Len(Sig(v[1])))
     [] T.k = "o" -> Fields(ObjRefT, v, off)
-    [] T.k = "list" -> {[pos |-> off, kind |-> "listcount", n |-> Len(v), esz |-> MinSize(T.e)]}
+    [] T.k = "list" -> {[pos |-> off, kind |-> "listcount", n |-> Len(v), esz |-> MinSize(T.e), fix |-> FixedSize(T.e)]}
                        \cup FieldsSeq([i \in 1..Len(v) |-> T.e], v, off + 4)
-    [] T.k = "map" -> {[pos |-> off, kind |-> "mapcount", n |-> Len(v), esz |-> MinSize(T.key) + MinSize(T.val)]}
+    [] T.k = "map" -> {[pos |-> off, kind |-> "mapcount", n |-> Len(v), esz |-> MinSize(T.key) + MinSize(T.val),
+                        fix |-> FixedSize(T.key) /\ FixedSize(T.val)]}
                       \cup FieldsSeq([i \in 1..(2 * Len(v)) |-> IF i % 2 = 1 THEN T.key ELSE T.val],
                                      [i \in 1..(2 * Len(v)) |-> v[(i + 1) \div 2][IF i % 2 = 1 THEN 1 ELSE 2]],
                                      off + 4)
     [] T.k \in {"tuple", "struct"} -> FieldsSeq(T.ms, v, off)
     [] OTHER -> {}
 LengthFieldPositions(T, v) == Fields(T, v, 0)
+
+(* Scale(b, f, N): the encoding b with the counted sequence of field f (fixed-size elements, at least one)   *)
+(* replaced by N copies of its first element.  ScaleLaw: for a list of fixed-size elements this is the         *)
+(* encoding of the list of N copies (checked by TLC for small N; the layout is a concatenation, so the law      *)
+(* carries over to every position of a composite and to every N)                                               *)
+RECURSIVE Rep(_, _)
+Rep(u, n) == IF n = 0 THEN <<>> ELSE u \o Rep(u, n - 1)
+Scale(b, f, N) == SubSeq(b, 1, f.pos) \o LE(N, 4) \o Rep(SubSeq(b, f.pos + 5, f.pos + 4 + f.esz), N)
+                  \o SubSeq(b, f.pos + 5 + f.n * f.esz, Len(b))
+ScaleLaw(T, v) ==
+  (T.k = "list" /\ FixedSize(T.e) /\ MinSize(T.e) > 0 /\ Len(v) > 0) =>
+     \A N \in 0..3 : LET f == CHOOSE g \in Fields(T, v, 0) : g.pos = 0 IN
+        /\ f.fix /\ f.esz = Len(EncOrd(T.e, v[1]))
+        /\ (\A i \in 1..Len(v) : v[i] = v[1]) => Scale(EncOrd(T, v), f, N) = EncOrd(T, [i \in 1..N |-> v[1]])
+        /\ Len(EncOrd(T, v)) = 4 + Len(v) * f.esz
 
 Patch(b, pos, q) == [i \in 1..Len(b) |-> IF i > pos /\ i <= pos + 4 THEN q[i - pos] ELSE b[i]]
 HostileNames == {"ff", "hi", "max31", "plus1", "rem1", "cap1", "strcap1", "big16", "strcap", "mid"}
